@@ -39,7 +39,7 @@ NOTE = {
  "C07": "Trusted: ASan/UBSan/LSan. Uninitialised reads invisible (no MSan). MPI code only under UBSan (C04).",
  "C08": "Trusted: transform implementations in the harness (pure functions of graph+recipe); relations are from the property statement.",
  "C09": "Trusted: exact __int128 arithmetic (weights are multiples of 2^-62). One open known finding (known_findings.txt).",
- "C10": "Trusted: reference parser in engine/dimacs_check.hpp; domain = lines<1000 bytes, no blank lines/CR/NUL.",
+ "C10": "Trusted: reference parser in engine/dimacs_check.hpp; domain = lines of at most 1022 bytes plus newline, no blank lines/CR/NUL.",
  "C11": "Trusted: Python brute-force optimum; 60 s watchdog on millisecond runs (3 confirmations).",
  "C12": "Trusted: exact Dijkstra APSP with path counting in the oracle. n<=14 quick, n<=22 thorough.",
  "C13": "Trusted: union-find forest test.",
